@@ -758,29 +758,10 @@ def main(tier, replay=None):
         impl_in.append(fc.field_line())
         impl_in += [l[1] for l in fc.lines]
     vf.log("[C05] proofs+builds+generation: %.1fs since start" % (time.time() - chk.t0))
-    rc, iout, ierr = run_impl(himpl, "\n".join(impl_in) + "\n", 240 if tier == "quick" else 3600, 1800 if tier == "quick" else 7200)
+    is_field = lambda l: l.startswith("field")
+    iout = run_stream(chk, himpl, impl_in, gfq_form, is_field, "GFqDom (crash or hang inside the library)",
+                      240 if tier == "quick" else 3600, 1800 if tier == "quick" else 7200, "GFqDom harness")
     vf.log("[C05] implementation harness: %.1fs since start" % (time.time() - chk.t0))
-    if nonverdict(rc):
-        inconclusive(chk, "GFqDom harness: %s after %d/%d lines" % ("wall-clock limit" if rc == 124 else "killed from outside (SIGKILL, rc=%s)" % rc, len(iout), len(impl_in)))
-    if rc != 0 or len(iout) != len(impl_in):
-        # the library crashed or hung on the line after the last answered one: that line is the failing input
-        n = len(iout)
-        fl = [l for l in impl_in[:n + 1] if l.startswith("field")]
-        if not nonverdict(rc) and (rc not in CPU_KILLED or confirm_hang(chk, himpl, fl[-1] if fl else None, impl_in[n] if n < len(impl_in) else None, 600)):
-            chk.fail_input("GFqDom (crash or hang inside the library)", "does not return" if rc in CPU_KILLED else "crash",
-                           {"field": fl[-1] if fl else None, "line": impl_in[n] if n < len(impl_in) else None},
-                           "an answer", "rc=%s after %d/%d lines" % (rc, n, len(impl_in)), ierr[-500:])
-        # the fields answered completely before that are still compared (they usually show the element-level cause)
-        done, pos0 = [], 0
-        for fc in fields:
-            if pos0 + 1 + len(fc.lines) <= n:
-                done.append(fc)
-            pos0 += 1 + len(fc.lines)
-            if pos0 > n:
-                break
-        fields = done
-        if not fields:
-            return chk.finish()
     n_fields_generated = len(fields)
     # 4b. the configuration with the second macro set
     hcnt, lcnt = build_harness_retry("c05_gfq.C", deps=("c05_alias.h",), extra_flags=("-D__GIVARO_COUNT__",), name="c05_gfq_count")
@@ -795,18 +776,15 @@ def main(tier, replay=None):
                 cin += impl_in[pos0:pos0 + nl]
                 cexp += iout[pos0:pos0 + nl]
             pos0 += nl
-        rcc, cout, cerr = run_impl(hcnt, "\n".join(cin) + "\n", 240 if tier == "quick" else 1800, 1800)
-        if nonverdict(rcc):
-            inconclusive(chk, "__GIVARO_COUNT__ harness: no verdict (rc=%s) after %d/%d lines" % (rcc, len(cout), len(cin)))
-        elif rcc != 0 or len(cout) != len(cin):
-            nn = len(cout)
-            chk.fail_input("GFqDom under __GIVARO_COUNT__ (second macro set of gfq.inl)", "crash", {"line": cin[nn] if nn < len(cin) else None},
-                           "an answer", "rc=%s after %d/%d lines" % (rcc, nn, len(cin)), cerr[-300:])
+        cout = run_stream(chk, hcnt, cin, gfq_form, is_field, "GFqDom under __GIVARO_COUNT__ (second macro set of gfq.inl)",
+                          240 if tier == "quick" else 1800, 1800, "__GIVARO_COUNT__ harness")
         nb = 0
         cur_field = None
         for li, a_std, a_cnt in zip(cin, cexp, cout):
             if li.startswith("field"):
                 cur_field = li
+            if a_std is None or a_cnt is None:
+                continue
             dist_cnt["count-config:lines-compared"] += 1
             if a_std != a_cnt and nb < 10:
                 nb += 1
@@ -819,11 +797,14 @@ def main(tier, replay=None):
     pos = 0
     model_in = []
     for fc in fields:
-        t = iout[pos].split()
+        hdr_answer = iout[pos]
+        t = (hdr_answer or "").split()
         fc.desc = t
         fc.out = iout[pos + 1: pos + 1 + len(fc.lines)]
         pos += 1 + len(fc.lines)
         fc.ok = len(t) > 9 and t[0] == "F"
+        if hdr_answer is None:
+            continue                   # not driven / not answered (crash, does-not-return or caps): reported by run_stream, counted by the floor
         if not fc.ok:
             chk.fail_input("GFqDom::GFqDom", "constructor", {"field": fc.field_line()}, "a field", " ".join(t[:20]))
             continue
@@ -874,6 +855,7 @@ def main(tier, replay=None):
     dist = {}
     nfields_tab = 0
     nchecked = 0
+    n_answers_compared = 0
 
     def bump(k, n=1):
         dist[k] = dist.get(k, 0) + n
@@ -986,6 +968,9 @@ def main(tier, replay=None):
                 mg = mlines[mi]
                 mi += 1
             case = {"field": fc.field_line(), "irred": fc.irred, "gen": fc.g, "line": il}
+            if got is None:
+                continue               # not answered (see run_stream): no comparison, visible in coverage.floor
+            n_answers_compared += 1
             if kind == "op":
                 v, a, b, c = meta
                 bump("op:" + v)
@@ -1157,8 +1142,11 @@ def main(tier, replay=None):
     n_model_lines = len(model_in)
     if drv and ncorr < 0.9 * n_model_lines:
         floor_missed.append("model/implementation correspondence: %d comparisons, %d model lines generated" % (ncorr, n_model_lines))
-    if len(fields) < n_fields_generated:
-        floor_missed.append("GFqDom fields compared: %d of %d generated" % (len(fields), n_fields_generated))
+    n_lines_gen = sum(len(fc.lines) for fc in fields)
+    if n_answers_compared < 0.98 * n_lines_gen:
+        floor_missed.append("GFqDom stream: %d of %d generated lines answered and compared" % (n_answers_compared, n_lines_gen))
+    if HS.log:
+        floor_missed.append("hang/crash handling: " + "; ".join(HS.log))
     if dist.get("ext:lines-compared", 0) < 0.9 * dist.get("ext:lines-generated", 1):
         floor_missed.append("Extension/GFqExt/GF2 stream: %d of %d lines compared" % (dist.get("ext:lines-compared", 0), dist.get("ext:lines-generated", 0)))
     if drv and (dist.get("gf2:model-correspondence", 0) < 1000 or dist.get("qadic:model-correspondence", 0) < 300 or dist.get("ext:model-correspondence", 0) < 3000):
@@ -1167,7 +1155,8 @@ def main(tier, replay=None):
         floor_missed.append("__GIVARO_COUNT__ configuration: %d lines compared" % dist_cnt["count-config:lines-compared"])
     if chk.cov.get("obligations", 0) != chk.cov.get("discharged", 0):
         floor_missed.append("theorems re-checked: %s of %s" % (chk.cov.get("discharged"), chk.cov.get("obligations")))
-    chk.cov["floor"] = {"model_lines": n_model_lines, "correspondence_comparisons": ncorr, "fields_generated": n_fields_generated, "fields_compared": len(fields),
+    chk.cov["floor"] = {"model_lines": n_model_lines, "correspondence_comparisons": ncorr, "fields_generated": n_fields_generated, "fields_compared": len([f for f in fields if f.ok]), "gfqdom_lines_generated": n_lines_gen, "gfqdom_lines_compared": n_answers_compared,
+                        "call_overruns": HS.overruns, "confirmations": HS.confirmed, "banned_forms": sorted(HS.banned),
                         "ext_lines_generated": dist.get("ext:lines-generated", 0), "ext_lines_compared": dist.get("ext:lines-compared", 0),
                         "count_config_lines": dist_cnt["count-config:lines-compared"]}
     if floor_missed or chk.cov.get("inconclusive"):
@@ -1185,13 +1174,9 @@ def vec_part(chk, rng, himpl, dist):
         q = p ** k
         xs = [0, 1, 2, q - 1, q, q + 5, p ** (2 * k) - 1] + [rng.range(1, q * q) for _ in range(12)]
         lines = ["field %d auto %d %d" % (T, p, k)] + ["cvt vec %d" % x for x in xs]
-        rc, out, err = run_impl(himpl, "\n".join(lines) + "\n", 120, 1200)
-        if nonverdict(rc):
-            inconclusive(chk, "init(Rep&,Vector) process for GF(%d^%d): no verdict (rc=%s)" % (p, k, rc))
-            continue
-        if rc != 0 or len(out) != len(lines):
-            chk.fail_input("GFqDom::init(Rep&,Vector)", "crash", {"field": lines[0], "lines": lines[1:]}, "a result per line", "rc=%s, %d/%d lines" % (rc, len(out), len(lines)))
-            continue
+        out = run_stream(chk, himpl, lines, gfq_form, lambda l: l.startswith("field"), "GFqDom::init(Rep&,Vector)", 120, 1200, "init(Rep&,Vector) process")
+        if any(a is None for a in out):
+            continue                   # reported by run_stream
         t = out[0].split()
         xi = t.index("X")
         irred, g = (int(t[xi + 1]) if k > 1 else p), int(t[xi + 2])
@@ -1268,11 +1253,153 @@ def coq_props_needed_only():
     return res
 
 
-def run_impl(binary, text, cpu_s, wall_s):
+def run_impl(binary, text, cpu_s, wall_s, env="C05_CALL_CPU=10 C05_FIELD_CPU=20"):
     """run an implementation harness under a CPU-time limit and a generous wall-clock limit.  A hang inside the library
     burns CPU and is killed by SIGXCPU after cpu_s seconds of CPU whatever the machine load is (verdict: hang); reaching
     the wall-clock limit instead says nothing about the library (verdict: inconclusive, rc 124)."""
-    return vf.run_lines("/bin/sh", text, timeout=wall_s, args=("-c", 'ulimit -t %d; exec "$0"' % cpu_s, binary))
+    return vf.run_lines("/bin/sh", text, timeout=wall_s, args=("-c", 'ulimit -t %d; %s exec "$0"' % (cpu_s, env), binary))
+
+
+# ---- bounded handling of calls that do not return / crash (shared by every stream, configuration and thread of one run) ----
+CALL_CPU, FIELD_CPU = 10, 20            # first stage: CPU seconds per call / per field construction (harness watchdog, exit code 99)
+CONFIRM_CALL_CPU, CONFIRM_FIELD_CPU = 30, 45     # confirmation: the one call alone
+MAX_CONFIRMATIONS, MAX_OVERRUNS, MAX_CRASHES_PER_FORM = 3, 6, 4
+BUDGET_RC = (99,)
+
+
+class HangState:
+    def __init__(self):
+        import threading
+        self.lock = threading.Lock()
+        self.banned, self.crashes = set(), {}
+        self.overruns = self.confirmed = 0
+        self.stopped = False
+        self.log = []
+
+
+HS = HangState()
+
+
+def gfq_form(line):
+    t = line.split()
+    if t[0] == "field":
+        return "GFqDom::GFqDom"
+    if t[0] in ("op", "opa"):
+        return "GFqDom::" + t[1]
+    if t[0] == "arr":
+        return "GFqDom::" + t[1].split("@")[0].replace("_s", "")
+    if t[0].startswith("dot"):
+        return "GFqDom::dotprod"
+    return "GFqDom::init/convert " + (t[1] if len(t) > 1 else "")
+
+
+def ext_form(line):
+    t = line.split()
+    k = t[0]
+    if k in ("gf2", "gf2a"):
+        return "GF2::" + (t[2] if k == "gf2" else t[1])
+    if k == "ext":
+        return "Extension::Extension"
+    if k in ("eop", "eopa"):
+        return "Extension::" + t[1]
+    if k == "gext":
+        return "GFqExtFast::GFqExtFast"
+    if k in ("gop", "gopa"):
+        return "GFqExtFast::" + t[1]
+    if k in ("ginit", "gdot", "gdotw", "groundtrip", "gflt"):
+        return "GFqExtFast::init(double)"
+    return "GFqExtFast::" + k
+
+
+def run_stream(chk, binary, lines, form_of, is_header, site, cpu_s, wall_s, what):
+    """send the lines to a harness; returns the answers aligned with the lines (None = not answered / not driven).
+    A call that exceeds its CPU budget ends the harness (exit 99): that call is re-run alone with a larger budget; if it still does
+    not return it is a failing input (klass does-not-return) and its call form is banned for the rest of the run (every stream);
+    the stream is restarted after it.  Crashes: reported, the stream is restarted after the crashing line, the form is banned
+    after MAX_CRASHES_PER_FORM crashes.  Caps per run: MAX_CONFIRMATIONS, MAX_OVERRUNS, then every stream stops (recorded)."""
+    n = len(lines)
+    out = [None] * n
+    start = 0
+    while start < n:
+        with HS.lock:
+            if HS.stopped:
+                break
+            banned = set(HS.banned)
+        hdr_of = {}
+        h = None
+        for i in range(n):
+            if is_header(lines[i]):
+                h = i
+            hdr_of[i] = h
+        # after a restart the rest of the interrupted field is NOT driven (constructing the field again may choose another
+        # modulus / generator than the one its descriptor line reported): continue with the next field
+        idxs, prefix = [], []
+        for i in range(start, n):
+            hi = hdr_of[i]
+            if hi is None:             # stateless line before the first field (GF2): always driven
+                if form_of(lines[i]) not in banned:
+                    idxs.append(i)
+                continue
+            if hi < start or form_of(lines[hi]) in banned:
+                continue
+            if i != hi and form_of(lines[i]) in banned:
+                continue
+            idxs.append(i)
+        if not idxs:
+            break
+        rc, o, err = run_impl(binary, "\n".join(prefix + [lines[i] for i in idxs]) + "\n", cpu_s, wall_s)
+        o = [x for x in o if not x.startswith("WARNING")][len(prefix):]
+        for j, a in enumerate(o[:len(idxs)]):
+            out[idxs[j]] = a
+        if len(o) >= len(idxs):
+            break
+        if nonverdict(rc):
+            inconclusive(chk, "%s: %s after %d/%d lines" % (what, "wall-clock limit" if rc == 124 else "killed from outside (SIGKILL, rc=%s)" % rc, len(o), len(idxs)))
+            break
+        fi = idxs[len(o)]
+        form = form_of(lines[fi])
+        hl = lines[hdr_of[fi]] if hdr_of[fi] is not None and hdr_of[fi] != fi else None
+        case = {"field": hl, "line": lines[fi][:300], "form": form}
+        crashed = True
+        if rc in BUDGET_RC or rc in CPU_KILLED:
+            crashed = False
+            with HS.lock:
+                HS.overruns += 1
+                can_confirm = HS.confirmed < MAX_CONFIRMATIONS and form not in HS.banned
+                if can_confirm:
+                    HS.confirmed += 1
+            if can_confirm:
+                alone = [l for l in (hl, lines[fi]) if l]
+                rc2, o2, e2 = run_impl(binary, "\n".join(alone) + "\n", CONFIRM_CALL_CPU + CONFIRM_FIELD_CPU + 10, 1200,
+                                       env="C05_CALL_CPU=%d C05_FIELD_CPU=%d" % (CONFIRM_CALL_CPU, CONFIRM_FIELD_CPU))
+                o2 = [x for x in o2 if not x.startswith("WARNING")]
+                if rc2 in BUDGET_RC or rc2 in CPU_KILLED:
+                    chk.fail_input(site, "does-not-return", case, "an answer",
+                                   "no answer within %d s CPU in the stream and within %d s CPU alone" % (FIELD_CPU if hl is None else CALL_CPU, CONFIRM_FIELD_CPU if hl is None else CONFIRM_CALL_CPU))
+                    with HS.lock:
+                        HS.banned.add(form)
+                        HS.log.append("does-not-return: %s ('%s'); form not driven any more" % (form, lines[fi][:80]))
+                elif rc2 == 0 and len(o2) == len(alone):
+                    inconclusive(chk, "%s: '%s' exceeded %d s CPU in the stream but returns alone" % (what, lines[fi][:80], CALL_CPU))
+                elif nonverdict(rc2):
+                    inconclusive(chk, "%s: confirmation run of '%s' without verdict (rc=%s)" % (what, lines[fi][:80], rc2))
+                else:
+                    crashed = True
+            with HS.lock:
+                if HS.overruns >= MAX_OVERRUNS or HS.confirmed >= MAX_CONFIRMATIONS:
+                    if not HS.stopped:
+                        HS.log.append("caps reached (%d overruns, %d confirmations): every stream stops here" % (HS.overruns, HS.confirmed))
+                    HS.stopped = True
+        if crashed:
+            with HS.lock:
+                c = HS.crashes[form] = HS.crashes.get(form, 0) + 1
+                if c >= MAX_CRASHES_PER_FORM:
+                    HS.banned.add(form)
+                    HS.log.append("%d crashes of %s: form not driven any more" % (c, form))
+            if c <= MAX_CRASHES_PER_FORM:
+                chk.fail_input(site, "crash", case, "an answer", "rc=%s after %d/%d lines of the batch" % (rc, len(o), len(idxs)), err[-300:])
+        start = fi + 1
+    return out
 
 
 CPU_KILLED = (-24, 152)          # SIGXCPU only: proves that the CPU budget was used up
@@ -1281,25 +1408,6 @@ OUTSIDE_KILL = (-9, 137)        # SIGKILL: OOM killer / operator - says nothing 
 
 def nonverdict(rc):
     return rc == 124 or rc in OUTSIDE_KILL
-
-
-def confirm_hang(chk, binary, field_line, case_line, cpu_s):
-    """the stream was killed by SIGXCPU while working on case_line: re-run that one case alone (after its field line) with a
-    larger CPU budget.  True = it does not return either (a concrete failing input); False = it returns alone, i.e. the
-    stream as a whole used up its budget (inconclusive, recorded)."""
-    lines = [l for l in (field_line, case_line) if l]
-    if case_line == field_line:
-        lines = [field_line]
-    rc, out, err = run_impl(binary, "\n".join(lines) + "\n", cpu_s, 3600)
-    if rc in CPU_KILLED:
-        return True
-    if rc == 0 and len([o for o in out if not o.startswith("WARNING")]) == len(lines):
-        inconclusive(chk, "stream exceeded its CPU budget at '%s' but the case alone returns" % case_line[:100])
-        return False
-    if nonverdict(rc):
-        inconclusive(chk, "re-run of '%s' alone ended with rc=%s (no verdict)" % (case_line[:100], rc))
-        return False
-    return True          # crashes alone as well: reported by the caller as the failing input
 
 
 def inconclusive(chk, what):
@@ -1340,16 +1448,12 @@ def e1_part(chk, rng, himpl, dist):
                 for a in els[:5] for b in els[:5] for c in els[:5]]
         cv = [0, 1, p - 1, p, p + 1, 2 * p + 3, rng.range(0, 10 * p)]
         lines = [head] + [o[0] for o in ops] + ["cvt i64 %d" % x for x in cv]
-        rc, out, err = run_impl(himpl, "\n".join(lines) + "\n", 120, 1200)
+        out = run_stream(chk, himpl, lines, gfq_form, lambda l: l.startswith("field"), site, 120, 1200, "degree-1 modulus process")
         dist["form:GFqDom::GFqDom(P,1,modPoly%s)" % ("" if gen is None else ",genPoly")] = dist.get("form:GFqDom::GFqDom(P,1,modPoly%s)" % ("" if gen is None else ",genPoly"), 0) + 1
         chk.count(("e1", head))
         case = {"field": head}
-        if nonverdict(rc):
-            inconclusive(chk, "process for '%s': no verdict (rc=%s)" % (head, rc))
-            continue
-        if rc != 0 or len(out) != len(lines):
-            chk.fail_input(site, "e=1", case, "a field and %d answers" % (len(lines) - 1), "rc=%s, %d/%d lines" % (rc, len(out), len(lines)), err[-300:])
-            continue
+        if any(a is None for a in out):
+            continue                   # reported by run_stream (crash / does-not-return / caps)
         t = out[0].split()
         if len(t) < 10 or t[0] != "F" or "T" not in t:
             chk.fail_input(site, "e=1", case, "a field", out[0][:200])
@@ -1580,19 +1684,8 @@ def ext_part(chk, rng, tier, dist, drv=None):
             ys = [ez() if not rng.chance(1, 5) else q - 1 for _ in range(n)]
             L.append(("gdot %d | %s | %s" % (n, " ".join(map(str, xs)), " ".join(map(str, ys))), "gdot", (xs, ys)))
     dist["ext:lines-generated"] = len(L)
-    rc, out, err = run_impl(h, "\n".join(x[0] for x in L) + "\n", 240 if tier == "quick" else 1800, 1800 if tier == "quick" else 5400)
-    out = [o for o in out if not o.startswith("WARNING")]
-    if nonverdict(rc):
-        inconclusive(chk, "Extension/GFqExt/GF2 harness: %s after %d/%d lines" % ("wall-clock limit" if rc == 124 else "killed from outside (SIGKILL, rc=%s)" % rc, len(out), len(L)))
-        L = L[:len(out)]
-    elif rc != 0 or len(out) != len(L):
-        n = len(out)
-        fl = [x[0] for x in L[:n + 1] if x[1] in ("ext", "gext")]
-        if rc not in CPU_KILLED or confirm_hang(chk, h, fl[-1] if fl else None, L[n][0] if n < len(L) else None, 600):
-            chk.fail_input("Extension/GFqExt/GF2 (crash or hang inside the library)", "does not return" if rc in CPU_KILLED else "crash",
-                           {"field": fl[-1] if fl else None, "line": L[n][0] if n < len(L) else None},
-                           "an answer", "rc=%s after %d/%d lines" % (rc, n, len(L)), err[-500:])
-        L = L[:n]          # the answered prefix is still compared (it usually shows the element-level cause)
+    out = run_stream(chk, h, [x[0] for x in L], ext_form, lambda l: l.startswith(("ext ", "gext ")), "Extension/GFqExt/GF2 (crash or hang inside the library)",
+                     240 if tier == "quick" else 1800, 1800 if tier == "quick" else 5400, "Extension/GFqExt/GF2 harness")
     P = None
     ctx = None
     l2p = None
@@ -1600,11 +1693,15 @@ def ext_part(chk, rng, tier, dist, drv=None):
     gq = []          # (impl line, impl answer, model line) of the GF2 operations (GF2Model.v)
     gmax = {}        # field -> (p, k, bits, maxdot()) as the implementation reports them
     qq = []          # (field, impl line, impl p-adic answer, model line) of the q-adic decodes (QadicModel.v)
-    dist["ext:lines-compared"] = len(L)
+    dist["ext:lines-compared"] = sum(1 for a in out if a is not None)
     def form(name):
         dist["form:" + name] = dist.get("form:" + name, 0) + 1
     gcls = "GFqExtFast"
     for (line, kind, meta), got in zip(L, out):
+        if got is None:
+            if kind in ("ext", "gext"):
+                P = None               # field not constructed / not driven: its lines are skipped
+            continue
         dist["ext:" + kind] = dist.get("ext:" + kind, 0) + 1
         # per call form (class::member[overload / pattern kind]) case counts
         if kind == "gf2":
